@@ -245,6 +245,8 @@ class CycleStmt(GenericStmt):
 
     Parameters
     ----------
+    construct_name : str, optional
+        The name of the enclosing do-construct that is cycled.
     **kwargs : optional
         Other parameters that are passed on to the parent class constructor.
     """
@@ -252,6 +254,7 @@ class CycleStmt(GenericStmt):
     keyword = 'CYCLE'
 
     text: Optional[None] = None
+    construct_name: Optional[str] = None
 
     def __post_init__(self):
         super().__post_init__()
@@ -259,7 +262,7 @@ class CycleStmt(GenericStmt):
             raise ValidationError('[Loki] CycleStmt takes no constructor arguments')
 
     def __repr__(self):
-        return 'Cycle::'
+        return f'Cycle::{self.construct_name if self.construct_name else ""}'
 
 
 @dataclass_strict(frozen=True)
@@ -320,6 +323,8 @@ class ExitStmt(GenericStmt):
 
     Parameters
     ----------
+    construct_name : str, optional
+        The name of the enclosing construct that is exited.
     **kwargs : optional
         Other parameters that are passed on to the parent class constructor.
     """
@@ -327,6 +332,7 @@ class ExitStmt(GenericStmt):
     keyword = 'EXIT'
 
     text: Optional[Union[Expression, str]] = ''
+    construct_name: Optional[str] = None
 
     @field_validator('text', mode='before')
     @classmethod
@@ -335,7 +341,7 @@ class ExitStmt(GenericStmt):
         return sym.IntLiteral(value) if value else ''
 
     def __repr__(self):
-        return f'Exit::{self.text if self.text else ""}'
+        return f'Exit::{self.construct_name or self.text or ""}'
 
 
 @dataclass_strict(frozen=True)
